@@ -267,6 +267,7 @@ impl AsyncFileSystem for AsyncMemoryFS {
     async fn append_file(&self, path: &str) -> VfsResult<Box<dyn Write + Send + Unpin>> {
         let handle = self.handle.write().await;
         let file = handle.files.get(path).ok_or(VfsErrorKind::FileNotFound)?;
+        ensure_file(file)?;
         let mut content = Cursor::new(file.content.as_ref().clone());
         content.seek(SeekFrom::End(0)).await?;
         let writer = AsyncWritableFile {
